@@ -920,4 +920,57 @@ theorem option_strict_gen_status :
        (signerOptMode.bareValueOptRaises = true ∨ signerOptMode.flagThenValueRaises = true)) := by
   decide +kernel
 
+/-! ## 8. allowed-signers data: one line, one entry (F146) -/
+
+/-- **Tie to the code**: the loader splits at newline only, which is what `splitLines` models. -/
+theorem signers_split_tie : Gen.C16.signersSplitNewlineOnly = true := by decide
+
+theorem splitNlAux_no_newline (s cur : List Nat) (h : 10 ∉ s) : splitNlAux s cur = [cur.reverse ++ s] := by
+  induction s generalizing cur with
+  | nil => simp [splitNlAux]
+  | cons c rest ih =>
+    have hc : c ≠ 10 := fun e => h (e ▸ List.mem_cons_self)
+    have hr : 10 ∉ rest := fun m => h (List.mem_cons_of_mem _ m)
+    rw [splitNlAux, if_neg hc, ih _ hr]
+    simp
+
+theorem loadLines_single (M : OptMode) (ik : List Nat → Option Bytes) (pt : List Nat → Option Int) (l : List Nat) :
+    loadLines M ik pt [l] = none ∨ loadLines M ik pt [l] = some [] ∨ ∃ e, loadLines M ik pt [l] = some [e] := by
+  simp only [loadLines]
+  split
+  · exact Or.inr (Or.inl rfl)
+  · split
+    · exact Or.inl rfl
+    · exact Or.inr (Or.inl rfl)
+    · exact Or.inr (Or.inr ⟨_, rfl⟩)
+
+/-- **One line, one entry**: allowed-signers data without a newline in it is read as a single line, so it never
+    yields more than one entry — whatever else it contains (vertical tab, form feed, the separators FS GS RS, NEL,
+    the Unicode line and paragraph separators, a lone carriage return: the characters `str.splitlines()` breaks
+    at).  A key placed in the comment of a line can therefore not become a signer of its own. -/
+theorem signers_one_line_one_entry (M : OptMode) (ik : List Nat → Option Bytes) (pt : List Nat → Option Int)
+    (text : List Nat) (h : 10 ∉ text) (es : List Entry) (hl : loadSigners M ik pt text = some es) :
+    es.length = 1 := by
+  unfold loadSigners loadSignersWith splitLines at hl
+  rw [splitNlAux_no_newline text [] h] at hl
+  rcases loadLines_single M ik pt ([].reverse ++ text) with h0 | h0 | ⟨e, h0⟩
+  · rw [h0] at hl; cases hl
+  · rw [h0] at hl; cases hl
+  · rw [h0] at hl
+    simp only [Option.some.injEq] at hl
+    subst hl
+    rfl
+
+/-- **Witness of defect F146 (repaired)**: `alice KEYA c<FF>mallory KEYM` — with `splitlines()` the form feed ended
+    the line and the text in the comment was loaded as a second entry, authorising mallory's key; read at newlines
+    only there is one entry, alice's. -/
+theorem signers_hidden_entry_prefix_witness :
+    let ik : List Nat → Option Bytes := fun s => if s = nm "KEYA c\x0cmallory KEYM" ∨ s = nm "KEYA c" then some [1]
+                                                else if s = nm "KEYM" then some [2] else none
+    let text := nm "alice KEYA c\x0cmallory KEYM"
+    ((loadSignersWith splitLinesPreFix optModeFixed ik (fun _ => none) text).map
+        (fun es => es.map (fun e => e.key))) = some [[1], [2]] ∧
+    ((loadSigners optModeFixed ik (fun _ => none) text).map (fun es => es.map (fun e => e.key))) = some [[1]] := by
+  decide +kernel
+
 end AsyncsshModel.C16
